@@ -30,6 +30,46 @@ def _validate(pid, traces, wd):
     return core.validate_traces("PhyTrace.tla", "PhyTrace.cfg", traces, pid, env={"KNOWN": kf}), sigs
 
 
+_REPLAY = re.compile(r'^<<"REPLAY", "(.*)">>\s*$')
+_IRQ127 = {"tx": {1: 0x08, 512: 0x08}, "complete_rx": {2: 0x40, 512: 0x80}, "cad": {128: 0x04}}
+
+
+def mc_behaviours(wd):
+    """MCPhy.tla: the design-level clauses on every call sequence of the abstract driver + chip, and one call
+    sequence per TRANSITION of that model; each is extended by a probe (prepare_for_tx, tx) that makes a driver which
+    lost track of the chip start an operation, and executed on both chip families."""
+    mc = core.model_check("MCPhy.tla", "MCPhy.cfg", PID, workers=4)
+    if mc["violated"]:
+        raise core.ToolError(f"MCPhy.cfg violated {mc['violated']}: the specification itself is wrong")
+    gen = core.model_check("MCPhy.tla", "MCPhyGen.cfg", PID, workers=1, coverage=False)
+    seqs = set()
+    for line in gen["out"].splitlines():
+        m = _REPLAY.match(line)
+        if m:
+            seqs.add(m.group(1).replace('\\"', '"'))
+    seqs.discard("[]")
+    hs = sorted(seqs)
+    src = os.path.join(wd, "mcphy.ndjson")
+    n = 0
+    with open(src, "w") as f:
+        for chip in ("sx1262", "sx1276"):
+            for h in hs:
+                steps = []
+                for st in json.loads(h) + [{"call": "prep_tx", "irq": []}, {"call": "tx", "irq": [1]}]:
+                    irq = [(_IRQ127.get(st["call"], {}).get(x, x) if chip == "sx1276" else x) for x in st["irq"]]
+                    steps.append({"call": st["call"], "irq": irq, "fault": -1, "cancel": False})
+                f.write(json.dumps({"chip": chip, "steps": steps}) + "\n")
+                n += 1
+    d = os.path.join(wd, "mc")
+    os.makedirs(d, exist_ok=True)
+    core.run_vh("phymc", d, shards=core.NCPU, extra=[f"in={src}"])
+    info = {"module": "MCPhy.tla", "design_states": mc["distinct"], "design_transitions": mc["generated"],
+            "actions": mc["coverage"], "call_sequences_generated": len(hs), "histories_executed": n,
+            "rule": "one call sequence per transition of the abstract driver + chip model (VIEW hides the history), each "
+                    "followed by prepare_for_tx + tx, on the SX1262 and the SX1276"}
+    return sorted(glob.glob(os.path.join(d, "phy.*.ndjson"))), info
+
+
 def run():
     rep = core.Report(PID)
     wd = core.workdir(PID)
@@ -37,6 +77,8 @@ def run():
     out = core.run_vh("phy", wd, shards=core.NCPU, extra=[f"depth={3 if t else 2}"], timeout=7200)
     info = core.kv(out)
     traces = sorted(glob.glob(os.path.join(wd, "phy.*.ndjson")))
+    mtraces, mcinfo = mc_behaviours(wd)
+    traces += mtraces
     res, sigs = _validate(PID, traces, wd)
     seen_known = {}
     nviol = 0
@@ -81,7 +123,7 @@ def run():
                 "preamble-then-done, spurious}; plus, for every prefix, a fault at EVERY bus event (SPI transfer, BUSY wait, DIO wait, reset, RF switch) of the last call "
                 "and a dropped future at the droppable interrupt wait, followed by a recovery call; distinct = distinct (call, driver mode before, result, error, "
                 "interrupt script, faulted, cancelled) tuples",
-        "calls": calls, "depth": 3 if t else 2, "exhaustive": True,
+        "calls": calls, "depth": 3 if t else 2, "exhaustive": True, "spec_behaviours_replayed_into_impl": mcinfo,
         "samples": [[{k: e[k] for k in ("call", "pre_mode", "res", "err", "mode", "irq", "fault")} for e in core.read_events(traces[0], 4)]],
         "explanation": "exhaustive over the stated call/outcome alphabet up to the stated depth on an emulated SX1262 (DC-DC + TCXO board) and an emulated SX1276 (TCXO, PA_BOOST), each also behind the LoRaWAN radio adapter (PhyRxTx calls tx / setup_rx(single|continuous) / rx_single / rx_continuous / low_power, one level deeper because the alphabet is small); LR11xx and SX1272 are not covered",
     }
